@@ -297,6 +297,83 @@ fn once_per_frame(ctx: &Ctx, rng: &mut Rng, is128: bool, st: &mut St, case: u64)
     }
 }
 
+/// E: the frame accounting must not depend on the speed mode: the same halting / busy program run
+/// one frame per call and run with FrameCount(n) or Max (scripted stopwatch) must show the same frame
+/// clock, PC, R and handler count after the same number of frames (the one-frame-per-call run is the
+/// one validated instruction by instruction by monitor A).
+fn mode_twin(ctx: &Ctx, rng: &mut Rng, is128: bool, st: &mut St, case: u64) {
+    let pad = rng.below(40) as usize;
+    let variant = rng.below(3);
+    let clock0 = 1 + rng.below(2000) as usize; // mostly not a multiple of 4
+    let build = || {
+        let mut m = Machine::new(Cfg::of(is128));
+        m.poke_bytes(0xBE00, &[0xBD; 257]);
+        let mut h = vec![0xFD, 0x23];
+        h.extend(std::iter::repeat(0x00).take(pad));
+        h.extend_from_slice(&[0xFB, 0xC9]);
+        m.poke_bytes(0xBDBD, &h);
+        let main: Vec<u8> = match variant {
+            0 => vec![0x76, 0x18, 0xFD],             // HALT; JR -3
+            1 => vec![0x00, 0x76, 0x23, 0x18, 0xFB], // NOP; HALT; INC HL; JR
+            _ => vec![0x34, 0x76, 0xE3, 0x18, 0xFB], // INC (HL); HALT; EX (SP),HL; JR
+        };
+        m.poke_bytes(0x8000, &main);
+        let mut rf = RegFile::default();
+        rf.pc = 0x8000;
+        rf.sp = 0xBD00;
+        rf.i = 0xBE;
+        rf.im = 2;
+        rf.iff1 = true;
+        rf.iff2 = true;
+        rf.hl = 0x9000;
+        m.set_regs(&rf);
+        m.set_clock(clock0);
+        m.dbg().mode = crate::host::DbgMode::Never;
+        m
+    };
+    let total = 6 + rng.below(20) as usize;
+    // reference: one frame per call
+    let mut a = build();
+    a.emu.set_speed(EmulationMode::FrameCount(1));
+    let mut refs = vec![];
+    for _ in 0..total {
+        a.emu.emulate_frames(Duration::from_secs(100)).expect("emulate");
+        let r = a.regs();
+        refs.push((a.clock(), r.pc, r.r, r.iy, r.halted));
+    }
+    // twin: FrameCount(n) or Max
+    let mut b = build();
+    let use_max = rng.bool();
+    let mut frame = 0usize;
+    while frame < total {
+        let n = (1 + rng.below(4) as usize).min(total - frame);
+        if use_max {
+            b.emu.set_speed(EmulationMode::Max);
+            let mut v: Vec<u64> = vec![0; n - 1];
+            v.extend_from_slice(&[5000, 5000, 5000]);
+            crate::host::set_stopwatch(crate::host::SwScript::List(v));
+            b.emu.emulate_frames(Duration::from_micros(1000)).expect("emulate");
+            crate::host::set_stopwatch(crate::host::SwScript::Zero);
+        } else {
+            b.emu.set_speed(EmulationMode::FrameCount(n));
+            b.emu.emulate_frames(Duration::from_secs(100)).expect("emulate");
+        }
+        frame += n;
+        let r = b.regs();
+        let got = (b.clock(), r.pc, r.r, r.iy, r.halted);
+        st.frames += n as u64;
+        if got != refs[frame - 1] {
+            ctx.violation(
+                &format!("frame-accounting:mode-dependent:{}", if use_max { "max" } else { "framecount-n" }),
+                &format!("{}K: after {} frames (clock, pc, r, iy, halted) = {:?} when run {} frames per call in {} mode, but {:?} one frame per call (main loop variant {}, start clock {})", if is128 { 128 } else { 48 }, frame, got, n, if use_max { "Max" } else { "FrameCount(n)" }, refs[frame - 1], variant, clock0),
+                jobj! {"monitor"=>"E","case"=>case,"is128"=>is128,"variant"=>variant,"clock0"=>clock0,"pad"=>pad},
+            );
+            return;
+        }
+    }
+    st.api_runs += 1;
+}
+
 pub fn run(ctx: &Ctx) -> Evidence {
     if let Some(r) = &ctx.replay {
         let d = r.get("details").cloned().unwrap_or(J::Null);
@@ -307,6 +384,7 @@ pub fn run(ctx: &Ctx) -> Evidence {
             "A" => conservation(ctx, &mut Rng::fork(ctx.seed ^ 0xC05A, case), is128, &mut st, case),
             "B" => api_accounting(ctx, &mut Rng::fork(ctx.seed ^ 0xC05B, case), is128, &mut st, case),
             "D" => once_per_frame(ctx, &mut Rng::fork(ctx.seed ^ 0xC05D, case), is128, &mut st, case),
+            "E" => mode_twin(ctx, &mut Rng::fork(ctx.seed ^ 0xC05E, case), is128, &mut st, case),
             _ => int_window(ctx, is128, &mut st),
         }
         let mut ev = Evidence::new("replay");
@@ -335,12 +413,17 @@ pub fn run(ctx: &Ctx) -> Evidence {
             let mut rng = Rng::fork(ctx.seed ^ 0xC05D, case);
             once_per_frame(ctx, &mut rng, case % 2 == 1, &mut st, case);
         }
+        for i in 0..(n_api / shards).max(1) {
+            let case = (sh * (n_api / shards).max(1) + i) as u64;
+            let mut rng = Rng::fork(ctx.seed ^ 0xC05E, case);
+            mode_twin(ctx, &mut rng, case % 2 == 1, &mut st, case);
+        }
         if sh < 2 {
             int_window(ctx, sh == 1, &mut st);
         }
         st
     });
-    let mut ev = Evidence::new("A: random programs (any memory, I/O, HALT, EI, block ops) single-stepped from 1..120 T before a frame end, sum of independently predicted step durations vs wraps*FRAME+clock-clock0 after every step; B: counting loop under emulate_frames(FrameCount(1..5)) x 1..6 calls from random start clocks; C: INT acceptance at every boundary time in [FRAME-40,FRAME) U [0,80) x IM0/1/2; D: IM2 handlers of 43..407 T x 5 main loops (HALT, busy, LDIR, EX (SP), DI) over K frames, handler count == K. distinct = distinct (machine, overrun carried into the next frame) values seen at frame wraps");
+    let mut ev = Evidence::new("A: random programs (any memory, I/O, HALT, EI, block ops) single-stepped from 1..120 T before a frame end, sum of independently predicted step durations vs wraps*FRAME+clock-clock0 after every step; B: counting loop under emulate_frames(FrameCount(1..5)) x 1..6 calls from random start clocks; C: INT acceptance at every boundary time in [FRAME-40,FRAME) U [0,80) x IM0/1/2; D: IM2 handlers of 43..407 T x 5 main loops (HALT, busy, LDIR, EX (SP), DI) over K frames, handler count == K; E: halting programs run one frame per call vs FrameCount(n)/Max mode: equal frame clock, PC, R, handler count after equal numbers of frames. distinct = distinct (machine, overrun carried into the next frame) values seen at frame wraps");
     let mut over = HashSet::new();
     for r in res {
         ev.evaluations += r.steps + r.api_runs + r.once_runs + r.int_window_points;
